@@ -8,6 +8,7 @@ pub mod c15;
 pub mod c17;
 pub mod c18;
 pub mod c19;
+pub mod c20;
 pub mod c03;
 pub mod c04;
 
@@ -22,6 +23,7 @@ pub fn run(ctx: &Ctx) -> bool {
         "C17" => c17::run(ctx),
         "C18" => c18::run(ctx),
         "C19" => c19::run(ctx),
+        "C20" => c20::run(ctx),
         "C03" => c03::run(ctx),
         "C04" => c04::run(ctx),
         _ => return false,
